@@ -77,8 +77,17 @@ NeedsTerminator ==
 NoPanicInv == NoPanic(st)
 
 \* G: one case per edge
+\* An error found at the byte just fed is final: whatever follows that byte -- the rest of a multi-byte character, a line
+\* break, a well-formed directive -- the scan ends with the same error at the same place.  (The tail below completes a
+\* UTF-8 byte order mark behind 0xEF and then goes on with a directive.)
+BomTail == <<187, 191, 10>> \o KwBytes["GET"] \o <<32, 47, 97, 10>>
+ErrAtLastByte(R, S) == R.res = "err" /\ R.err.i = Len(S.tape) - 1
+Extended(S) == RunEOF(FeedChunk(S, PlainChunk(BomTail)))
+ErrorIsFinal == [][(st'.tape # st.tape /\ ErrAtLastByte(RunEOF(st'), st')) =>
+                     (Extended(st').res = "err" /\ Extended(st').err = RunEOF(st').err)]_vars
 Emit == st'.tape # st.tape =>
-          PrintT("E " \o ToJson(Summary(RunEOF(st'))))
+          /\ PrintT("E " \o ToJson(Summary(RunEOF(st'))))
+          /\ (ErrAtLastByte(RunEOF(st'), st') => PrintT("E " \o ToJson(Summary(Extended(st')))))
 \* the language tables, for the cross-check with directive/enumeration.go
 ASSUME PrintT("L " \o ToJson([kinds |-> KwNames]))
 =============================================================================
